@@ -91,6 +91,11 @@ def config(draw, max_levels=1, max_mws=4, posonly=True, nonunique=True, nonreord
         else:
             pl = draw(st.sampled_from(['provides', 'endpoint_provides', 'render_provides']))
         mw[pl].append(n)
+    for where, cont, mw in slots:
+        mw['call'] = draw(st.sampled_from(['kw', 'kw', 'pos', 'mixed']))
+        for _, pl in I.PHASES:
+            if len(mw[pl]) > 1:
+                mw[pl] = list(draw(st.permutations(mw[pl])))
     has_rn = draw(st.floats(0, 1)) < 0.7
     cfg = {'levels': levels, 'route': route, 'build': draw(st.sampled_from(['list', 'add']))}
     # availability on the merged stack (ignoring rejections) guides the signatures
